@@ -103,7 +103,9 @@ func (st *Store) Get(key string, optKey string) ([]byte, error) {
 	// LUH is unversioned and specific for each option type
 	luh, err := st.GetLUH(optKey)
 	if err != nil {
-		panic(errors.Wrap(err, "Unable to get Last Update Height"))
+		// a read can be refused (block gas used up): that is an error of this call, not a reason to
+		// bring the application down
+		return nil, errors.Wrap(err, "Unable to get Last Update Height")
 	}
 	// Get the Options from the last update Height
 	versionedKey := storage.StoreKey(string(rune(luh)) + storage.DB_PREFIX + key)
